@@ -1193,11 +1193,14 @@ impl Vm {
                     };
 
                     // Widths and precisions beyond u16::MAX make the formatting machinery
-                    // panic (or allocate gigabytes of padding): reject them up front.
+                    // panic (or allocate gigabytes of padding): reject them up front. u16::MAX
+                    // itself is rejected as well: the exponent formats (`e`, `E`) compute
+                    // `precision + 1` in u16 and hit an assertion in core::num::flt2dec.
                     let check_format_specifiers = |this: &Self, specifiers: &str| {
-                        let out_of_range = specifiers
-                            .split(|c: char| !c.is_ascii_digit())
-                            .any(|n| !n.is_empty() && n.parse::<u16>().is_err());
+                        let out_of_range =
+                            specifiers.split(|c: char| !c.is_ascii_digit()).any(|n| {
+                                !n.is_empty() && n.parse::<u16>().map_or(true, |v| v == u16::MAX)
+                            });
                         if out_of_range {
                             Err(Box::new(this.runtime_error(
                                 RuntimeErrorKind::InvalidFormatSpecifiers(format!(
